@@ -145,6 +145,15 @@ class Field:
         if style == "value_np":
             v = f.nested((0.0,) * f.d)
             return np.array(v) if f.shape else npconv(v)
+        if style == "value_np32":
+            # single-precision numpy scalars / arrays (np.complex64 is NOT a subclass of complex) when the data
+            # are exactly representable; the judge widens its tolerance for pools that use this style
+            v = f.nested((0.0,) * f.d)
+            arr = np.array(v)
+            single = arr.astype(np.complex64 if arr.dtype.kind == "c" else np.float32)
+            if np.all(single.astype(arr.dtype) == arr):
+                return single if f.shape else single[()]
+            return arr if f.shape else npconv(v)
         if style == "call2":
             return lambda x, derivatives=(): f.nested(x, derivatives)
         if style == "call2_np":
@@ -191,7 +200,7 @@ class Pool:
             t = ufl.Coefficient(V) if role == "f" else ufl.Argument(V, self.counter)  # equal (number, space) would make two Arguments one mapping key
         f = Field(rng, shape, self.d, kind, cplx_f)
         if f.constant:
-            style = rng.choice(["value", "value", "value_np", "value_list" if shape else "value"] + (["call2"] if role != "c" else []))
+            style = rng.choice(["value", "value", "value_np", "value_np32", "value_list" if shape else "value"] + (["call2"] if role != "c" else []))
         else:
             style = rng.choice(["call2", "call2", "call2", "call2_np", "call2_list" if shape else "call2"])
         self.term[name] = t
